@@ -30,6 +30,7 @@ import Reamber.Lemmas.SMWriteText
 import Reamber.Lemmas.Snapper
 import Reamber.Lemmas.SMTies
 import Reamber.Lemmas.SMTol
+import Reamber.Lemmas.SMChanges
 import Mathlib.Tactic.NormNum
 import Reamber.Generated.SMTables
 import Mathlib.Tactic.Ring
@@ -858,6 +859,43 @@ theorem write_read_exact_show (sh : Shows) (hsh : ShowsOK sh) (hsp : ShowsParse 
     exact hsp.parse _
   · rw [trim_bpmsParam sh hsp]
     exact SM.parsePairs_bpmsParam sh hsp _
+
+/-! ### the tempo hypotheses of `write_read_exact`, discharged from the written header -/
+
+/-- **The tempo-change list a `#BPMS` value denotes is in C10's domain as soon as the pairs are `tempoOk`** (a first entry
+on beat 0, positive tempos, distinct beats — a decidable condition on the written header, evaluated by (S) on every
+case): the changes are well formed with the 4-beat metronome, ascending, the first one at measure 0 beat 0.  Of the six
+tempo hypotheses of `write_read_exact` only `gridCompatible` (the fractional beat distances lie on the snap grid) is a
+condition of its own. -/
+theorem changesOf_domain (bpms : List (Rat × Rat)) (h : tempoOk bpms = true) :
+    wfChanges (changesOf bpms) = true ∧ sortedSnaps (changesOf bpms) = true ∧ firstAtZero (changesOf bpms) = true ∧
+    metronomeOk (changesOf bpms) = true ∧ ∀ c ∈ changesOf bpms, c.met = 4 :=
+  SM.changesOf_domain bpms h
+
+/-- **`write_read_exact_written` — `write_read_exact_show` with the tempo list read off the written header.**  The tempo
+list `cs` and the start time `t0` are no longer parameters tied to the file by hypotheses (`hbp`, `ho`): they *are*
+what the written `#BPMS` / `#OFFSET` denote, and five of the six C10-domain hypotheses follow from `tempoOk w.bpms`
+(`changesOf_domain`).  What remains: `tempoOk` and `gridCompatible` of the written header (both decidable), the
+per-chart domain `ChartWritten` (the chart's timing map is the stored form of that list, objects on the snap grid,
+`EventsOK`, non-overlapping holds), clean strings, and the renderer assumptions. -/
+theorem write_read_exact_written (sh : Shows) (hsh : ShowsOK sh) (hsp : ShowsParse sh)
+    (h : WHeader) (charts : List WChart) (w : Written) (hw : SM.write h charts = .ok w)
+    (htempo : tempoOk w.bpms = true)
+    (hgc : gridCompatible (grid defaultMaxDiv) (changesOf w.bpms) = true)
+    (hL : ∀ c ∈ charts, ∃ out, ChartWritten (-(1000 * w.offsetSec)) (changesOf w.bpms) c out)
+    (hstr : ∀ ta ∈ stringTags, CleanParam ((h.strs.lookup ta.2).getD []))
+    (hch : ∀ c ∈ charts, CleanParam c.chartType ∧ CleanParam c.description ∧ CleanParam c.difficulty ∧
+      '\n' ∉ c.chartType ∧ '\n' ∉ c.difficulty) :
+    ∃ d, denote (renderWritten sh w) = some d ∧ d.offsetSec = some w.offsetSec ∧ d.bpms = some w.bpms ∧
+      d.chartsWellFormed = true ∧ d.charts.length = charts.length ∧
+      ∀ (i : Nat) (hi : i < charts.length) (hd : i < d.charts.length),
+        (d.charts[i]).wellBracketed = true ∧
+        (timedNotes w.offsetSec w.bpms d.charts[i]).Perm ((charts[i]).notes.map timedOfW) := by
+  obtain ⟨hwf, hs, h0, hm, hM⟩ := SM.changesOf_domain w.bpms htempo
+  exact write_read_exact_show sh hsh hsp _ _ hwf hs h0 hgc hm hM h charts w hw hL hstr hch rfl rfl
+
+example : tempoOk [(0, 120), (8, 60), (12, 240)] = true ∧
+    (changesOf [(12, 240), (0, 120), (8, 60)]).map (·.snap.measure) = [0, 2, 3] := by decide +kernel
 
 /-! ### `#BPMS` entries on one beat (tempo rows at one offset) -/
 
